@@ -46,9 +46,10 @@ const Site = "PrivValidator.signBytesHRS"
 //	               (prefix / suffix only)
 type Scenario struct {
 	Name    string     `json:"name"`
-	Pre     []string   `json:"pre"`     // executed by the main thread before the threads start
-	Threads [][]string `json:"threads"` // concurrent, all on one *PrivValidator
-	Post    []string   `json:"post"`    // executed by the main thread after all threads returned
+	Pre     []string   `json:"pre"`             // executed by the main thread before the threads start
+	Threads [][]string `json:"threads"`         // concurrent, all on one *PrivValidator
+	Post    []string   `json:"post"`            // executed by the main thread after all threads returned
+	Rungs   int        `json:"rungs,omitempty"` // explore only the first Rungs schedule spaces of the ladder (0 = all): wide thread sets
 }
 
 // String is the compact text used in evidence and details.
@@ -501,7 +502,8 @@ func Scenarios(quick bool) []Scenario {
 	if !quick {
 		s = append(s,
 			Scenario{Name: "three-rounds-walkers", Threads: [][]string{{"P:1:0:A", "V:1:0:A", "C:1:0:A"}, {"V:1:0:B", "C:1:0:B", "V:1:1:B"}}, Post: []string{"L", "C:1:0:B", "V:1:1:A"}},
-			Scenario{Name: "four-callers", Threads: [][]string{{"V:1:0:A"}, {"V:1:0:B"}, {"C:1:0:A"}, {"C:1:0:B"}}, Post: []string{"L", "V:1:0:A", "V:1:0:B", "C:1:0:A", "C:1:0:B"}},
+			// four threads: preemption bounds 0..2 only
+			Scenario{Name: "four-callers", Threads: [][]string{{"V:1:0:A"}, {"V:1:0:B"}, {"C:1:0:A"}, {"C:1:0:B"}}, Post: []string{"L", "V:1:0:A", "V:1:0:B", "C:1:0:A", "C:1:0:B"}, Rungs: 3},
 		)
 	}
 	return s
